@@ -147,7 +147,13 @@ def violation(kind, case, detail, ctx):
 
 def check_case(case, ctx):
     tree = case['tree']
+    if case.get('ref'):          # T ends in a backreference (numeric or named) followed by a digit-leading / arbitrary tail
+        tree = dsl.with_reference(tree, case['ref']) or dsl.with_reference(['cap', 'class', tree, None], case['ref']) or tree
     ins = [tuple(i) for i in case['ins']]
+    if tree is not case['tree']:
+        ctx.count('T_with_backreference')
+        # one more empty, as a further operand of the top-level n-ary concatenation that holds the reference (any position)
+        ins.insert(0, (0, 'nary', 'class', case['ref_empty'], case['ref_pos']))     # first: applied before other root insertions wrap the node
     # (1) each inserted empty prints as ''
     for (_, _, _, e, _) in ins:
         try:
@@ -244,6 +250,8 @@ def strategy(spec, ctx):
         'tree': dsl.tree_strategy(feats, max_leaves=5),
         'ins': st.lists(ins, min_size=1, max_size=3),
         'tseed': st.integers(0, 2 ** 16),
+        'ref': st.one_of(st.none(), st.none(), dsl.refspec_strategy(feats)),
+        'ref_empty': empty_tree(), 'ref_pos': st.integers(0, 7),
     })
 
 
